@@ -85,6 +85,11 @@ P = {
          "Histories over {clone, wake, wake_by_ref, drop} on the tree of wakers obtained inside polls of opaque Future/Stream/Sink objects, during the poll, after it returned, and on another thread, with a generated final drop order. After every op: wakes seen == wakes issued, releases <= clones, a clone is held while any foreign waker lives, and at the end clones == releases with nothing touching the original afterwards.",
          "hand-rolled RawWakerVTable over counters (no UB on over-release); threaded phases checked at quiescence",
          "DESIGN.md 4/C19"),
+ "C20": (True, "c20pairs",
+         "metamorphic PBT: (definition, single-edit variant) pairs compiled with the layout_checks feature and compared with compare_layouts",
+         "Generated traits (1-4 methods over StableAbi leaf types and the auto-wrapped shapes) and groups over them; each pair differs by exactly one edit (add/remove/rename/reorder method, argument/return type, receiver, int_result, add/remove argument, add/remove optional trait, mandatory/optional swap, or a C-neutral edit). Both sides live in separate modules of one crate; the Box and ArcBox opaque object/group types are compared: identical or order-permuted definitions must be Valid, C-visible edits must not be Valid, a missing description must be Unknown, a type against itself Valid; C-neutral edits carry no requirement. The 9 ordered pairs of `and` and the strict/relaxed predicates are enumerated.",
+         "the expected verdict comes from the generator's own model of the C-visible signature",
+         "DESIGN.md 4/C20"),
 }
 NOT_YET = "check not built yet in this round (see DESIGN.md section 4 for the planned generator and oracle)"
 
@@ -127,6 +132,7 @@ def main():
 
 NA = {}
 ENGINES = [
+ {"name": "c20pairs", "path": "driver/gen_c20.py", "serves_properties": ["C20"], "kind_free_text": "generated crate of definition/variant pairs built with layout_checks"},
  {"name": "expander", "path": "harness/expander, driver/gen_c03.py", "serves_properties": ["C03","C04"], "kind_free_text": "runs /repo's cglue_gen in-process as a library: structural oracle, emission of lint crates, struct/field digests for determinism"},
  {"name": "progbatch", "path": "driver/gen.py, driver/emit.py, driver/batch.py, harness/pbsupport", "serves_properties": ["C01","C02","C04","C06","C07","C13"], "kind_free_text": "grammar-based generator of cglue traits + stateful implementors + differential drivers, compiled per batch against /repo"},
  {"name": "c08cells", "path": "driver/gen_c08.py", "serves_properties": ["C08"], "kind_free_text": "generated crate enumerating the cast matrix"},
